@@ -336,21 +336,21 @@ func identIs(fn *Func, id *ast.Ident, name string) bool {
 type guardKind int
 
 const (
-	gCall      guardKind = iota // call of function `name` evaluated to pol
-	gField                      // bool field/variable named `name` evaluated to pol
-	gNil                        // <…>.name == nil is pol (pol=false: proven non-nil)
-	gOkLookup                   // comma-ok of a lookup in map field `name` (or type assertion to type `name`) is pol
-	gCmp                        // comparison whose normalised text is `name` evaluated to pol
-	gInRange                    // inside a range loop over <…>.name
-	gAny                        // any of sub
-	gHasPrefix                  // strings.HasPrefix(...) is pol
-	gDomAssign                  // dominated by an assignment <…>.name = <rhs text>
-	gNonNilVar                  // the variable/path named `name` is proven non-nil (P5 engine)
-	gDomCall                    // dominated by a call of function `name`
-	gVia                        // every path from the success edge of sub[0] to the emission crosses an assignment to <…>.name
-	gLastUse                    // nothing reachable after the emission reads <…>.name (the emission is the last access)
-	gParamSame                  // `name` is a parameter of the function that is never re-assigned
-	gInRangeFrom                // inside a loop over <…>.name[rhs:] (a range over the slice expression, or a counting loop starting at rhs)
+	gCall        guardKind = iota // call of function `name` evaluated to pol
+	gField                        // bool field/variable named `name` evaluated to pol
+	gNil                          // <…>.name == nil is pol (pol=false: proven non-nil)
+	gOkLookup                     // comma-ok of a lookup in map field `name` (or type assertion to type `name`) is pol
+	gCmp                          // comparison whose normalised text is `name` evaluated to pol
+	gInRange                      // inside a range loop over <…>.name
+	gAny                          // any of sub
+	gHasPrefix                    // strings.HasPrefix(...) is pol
+	gDomAssign                    // dominated by an assignment <…>.name = <rhs text>
+	gNonNilVar                    // the variable/path named `name` is proven non-nil (P5 engine)
+	gDomCall                      // dominated by a call of function `name`
+	gVia                          // every path from the success edge of sub[0] to the emission crosses an assignment to <…>.name
+	gLastUse                      // nothing reachable after the emission reads <…>.name (the emission is the last access)
+	gParamSame                    // `name` is a parameter of the function that is never re-assigned
+	gInRangeFrom                  // inside a loop over <…>.name[rhs:] (a range over the slice expression, or a counting loop starting at rhs)
 )
 
 type guard struct {
@@ -1088,21 +1088,22 @@ func isSortFuncName(f *types.Func) bool {
 // ---- rows ---------------------------------------------------------------------------------
 
 type row struct {
-	prop   string
-	also   []string // further properties this row is a necessary condition of
-	id     string   // stable row id (part of the obligation key)
-	pkg    string   // package suffix, e.g. "decoder"
-	fn     string   // function name (bare, without package/receiver) — "" = any function of pkg
-	recv   string   // receiver type name ("" = any)
-	disj   []string // if set: the nearest enclosing if-condition is exactly this disjunction (normalised comparison texts)
-	emit   emitSel
-	need   []guard
-	min    int             // minimum number of emission sites expected
-	pos    []string        // if set: every cursor-position predicate (ContainsPos) guarding the emission is one of these texts
-	noSafe []string        // calls that do count as data filters for this row's exact check (normally position / error tests do not)
-	exact  []string        // if set: the set of comparison/field atoms allowed as *data filters* at the emission (no others)
-	live   map[string]bool // if set: with these atoms fixed (text -> truth) the emission must still be reachable (the guards may not be stronger)
-	why    string
+	prop      string
+	also      []string // further properties this row is a necessary condition of
+	id        string   // stable row id (part of the obligation key)
+	pkg       string   // package suffix, e.g. "decoder"
+	fn        string   // function name (bare, without package/receiver) — "" = any function of pkg
+	recv      string   // receiver type name ("" = any)
+	disj      []string // if set: the nearest enclosing if-condition is exactly this disjunction (normalised comparison texts)
+	emit      emitSel
+	need      []guard
+	min       int             // minimum number of emission sites expected
+	pos       []string        // if set: every cursor-position predicate (ContainsPos) guarding the emission is one of these texts
+	noSafe    []string        // calls that do count as data filters for this row's exact check (normally position / error tests do not)
+	exact     []string        // if set: the set of comparison/field atoms allowed as *data filters* at the emission (no others)
+	live      map[string]bool // if set: with these atoms fixed (text -> truth) the emission must still be reachable (the guards may not be stronger)
+	anySyntax bool            // the emission serves HCL-JSON as well: no guard may require a successful assertion to a native-syntax (hclsyntax) node type
+	why       string
 }
 
 func bareFuncName(fn *Func) string {
@@ -1413,6 +1414,21 @@ func runRows(prop string) func(p *Prog, r *Report) {
 						if len(extra) > 0 {
 							r.Add("E1.row", fn.Name, construct, p.Pos(em), Violated,
 								fmt.Sprintf("%s — an additional filter narrows what is emitted here: %s", rw.why, strings.Join(dedup(extra), "; ")), true)
+							continue
+						}
+					}
+					if rw.anySyntax {
+						gate := ""
+						for _, a := range fn.GuardsAt(em).AllAtoms() {
+							if a == nil || a.E == nil || a.Expanded {
+								continue
+							}
+							if g := nativeSyntaxGate(fn, a); g != "" {
+								gate = g
+							}
+						}
+						if gate != "" {
+							r.Add("E1.row", fn.Name, construct, p.Pos(em), Violated, rw.why+" — this point is reached only after "+gate+" succeeded: expressions of the JSON syntax are never of that type, so JSON documents no longer get here", true)
 							continue
 						}
 					}
@@ -2016,4 +2032,71 @@ func guardsAtBranch(p *Prog, fn *Func, x ast.Stmt) *Formula {
 		return fAnd(fn.GuardsAt(ifs.Cond), inner)
 	}
 	return fn.GuardsAt(x)
+}
+
+// nativeSyntaxGate: the atom requires that an assertion to a pointer-to-hclsyntax type
+// succeeded (its ok flag is true, or its result is non-nil); returns a description or "".
+func nativeSyntaxGate(fn *Func, a *Atom) string {
+	info := fn.Info()
+	isNative := func(ta *ast.TypeAssertExpr) string {
+		if ta == nil || ta.Type == nil {
+			return ""
+		}
+		if pt, ok := info.TypeOf(ta.Type).(*types.Pointer); ok {
+			if nt := namedOf(pt); nt != nil && nt.Obj().Pkg() != nil && strings.HasSuffix(nt.Obj().Pkg().Path(), "hclsyntax") {
+				return exprStr(ta)
+			}
+		}
+		return ""
+	}
+	assertionOf := func(o types.Object, wantIdx int) string {
+		res := ""
+		n := 0
+		for f := fn; f != nil; f = f.Parent {
+			for _, asn := range f.Assignments(o) {
+				n++
+				s, ok := asn.(*ast.AssignStmt)
+				if !ok || len(s.Rhs) != 1 || len(s.Lhs) != 2 {
+					continue
+				}
+				id, ok := s.Lhs[wantIdx].(*ast.Ident)
+				if !ok || info.ObjectOf(id) != o {
+					continue
+				}
+				if ta, ok := ast.Unparen(s.Rhs[0]).(*ast.TypeAssertExpr); ok {
+					res = isNative(ta)
+				}
+			}
+		}
+		if n != 1 {
+			return ""
+		}
+		return res
+	}
+	e := ast.Unparen(a.E)
+	switch x := e.(type) {
+	case *ast.Ident:
+		if a.Pol {
+			if o := info.ObjectOf(x); o != nil {
+				return assertionOf(o, 1)
+			}
+		}
+	case *ast.BinaryExpr:
+		if x.Op == token.NEQ || x.Op == token.EQL {
+			other := x.X
+			if isNilIdent(info, x.X) {
+				other = x.Y
+			} else if !isNilIdent(info, x.Y) {
+				return ""
+			}
+			if (x.Op == token.NEQ) == a.Pol {
+				if id, ok := ast.Unparen(other).(*ast.Ident); ok {
+					if o := info.ObjectOf(id); o != nil {
+						return assertionOf(o, 0)
+					}
+				}
+			}
+		}
+	}
+	return ""
 }
